@@ -133,7 +133,7 @@ def hdr_field(e):
 
 def run(rep, ctx):
     repo = ctx["repo"]
-    jobs = [dict(unit="nl-writer2/src/nl-writer2.cc", repo=repo,
+    jobs = [dict(unit="nl-writer2/src/nl-writer2.cc", repo=repo, closure=1, closure_roots=r"mp::BinaryFormatter::nput$",
                  fn=[NLW + r"::.*", r"mp::(TextFormatter|BinaryFormatter)::.*", r"mp::File::Printf", r"DAVID_GAY_GFMT::(g_fmt|gfmt)"],
                  var=[r"mp::nl::[A-Z_0-9]+", r"mp::gl_[A-Za-z0-9_]+", r"gl_[A-Za-z0-9_]+"],
                  rec=[r"NLProblemInfo_C", r"NLInfo_C", r"mp::NLHeader", r"NLHeader_C"],
@@ -565,8 +565,35 @@ def number_rules(rep, F, FW):
             for c in f.walk():
                 if c["k"] == "CXXMemberCallExpr" and c.get("callee", "").endswith("::apr"):
                     fm |= lit_of(FW, call_args(c)[1], f) or set()
-            exact = any(n["k"] == "BinaryOperator" and n.get("op") == "==" and "L" in render(n) and "x" in render(n)
-                        for n in f.walk())
+            # exactness: each integer record is written only under an equality between the floating value and its
+            # integer image (the conversion to long was exact)
+            hw_ = value_holders(f)
+
+            def exact_guard(call):
+                def atoms(c, pol, out):
+                    c = strip(c)
+                    while c["k"] == "UnaryOperator" and c.get("op") == "!":
+                        pol = not pol
+                        c = strip(kids(c)[0])
+                    if c["k"] == "BinaryOperator" and ((c.get("op") == "&&" and pol) or (c.get("op") == "||" and not pol)):
+                        atoms(kids(c)[0], pol, out); atoms(kids(c)[1], pol, out)
+                    elif c["k"] == "BinaryOperator" and c.get("op") == ",":
+                        atoms(kids(c)[1], pol, out)
+                    else:
+                        out.append((c, pol))
+                    return out
+                for cid, pol in f.cfg.facts_at(call):
+                    if isinstance(pol, tuple):
+                        continue
+                    for c, p_ in atoms(f.nodes[cid], pol, []):
+                        if c["k"] == "BinaryOperator" and c.get("op") in ("==", "!=") and (c["op"] == "==") == p_:
+                            w_ = sorted(x for x in (hw_(kids(c)[0]), hw_(kids(c)[1])) if x is not None)
+                            if len(w_) == 2 and w_[0] == 0 and w_[1] >= 32:
+                                return True
+                return False
+            ints = [c for c in f.walk() if c["k"] == "CXXMemberCallExpr" and c.get("callee", "").endswith("::apr") and
+                    (lit_of(FW, call_args(c)[1], f) or set()) & {"s%h", "l%l"}]
+            exact = bool(ints) and all(exact_guard(c) for c in ints)
             w1.check(fm == {"s%h", "l%l", "n%g"} and exact, "BinaryFormatter::nput", short_loc(f.loc),
                      "binary constants: short/long only under the exactness test (double)x == L, else 8 raw bytes")
     # the g case of the text formatter ends in g_fmt with output_prec
@@ -704,18 +731,7 @@ def packing_rule(rep, F):
             else:
                 return None
         return None
-    # locals assigned from casts of the value: sh = (short)L, L = (long)x, x = r
-    narrow = {}        # name -> width in bits when the local holds (T)value
-    for n in f.walk():
-        if n["k"] == "BinaryOperator" and n.get("op") == "=" and strip(kids(n)[0])["k"] == "DeclRefExpr":
-            lhs = strip(kids(n)[0])
-            ct = (lhs.get("ct") or "")
-            if ct in ("short", "signed short"):
-                narrow[lhs.get("name")] = 16
-            elif ct in ("int", "long") and "long" == ct:
-                narrow[lhs.get("name")] = 64
-            elif ct == "int":
-                narrow[lhs.get("name")] = 32
+    hw = value_holders(f)
 
     def interval(call):
         lo, hi = -INF, INF
@@ -733,48 +749,40 @@ def packing_rule(rep, F):
             if c["k"] == "BinaryOperator" and c.get("op") == "," and pol:
                 add(kids(c)[1], pol)
                 return
-            if c["k"] == "BinaryOperator" and c.get("op") in ("<=", "<", ">=", ">", "=="):
+            if c["k"] == "BinaryOperator" and c.get("op") in ("<=", "<", ">=", ">", "==", "!="):
                 a, b = kids(c)
-                ta, tb = render(a).replace(" ", ""), render(b).replace(" ", "")
                 va, vb = fcv(a), fcv(b)
                 op = c["op"]
                 if not pol:
-                    op = {"<=": ">", "<": ">=", ">=": "<", ">": "<=", "==": "!="}[op]
-                def valname(t):
-                    t = re.sub(r"\((double|long|int|short)\)", "", t.replace("x=r", "x"))
-                    while t.startswith("(") and t.endswith(")"):
-                        t = t[1:-1]
-                    return t
+                    op = {"<=": ">", "<": ">=", ">=": "<", ">": "<=", "==": "!=", "!=": "=="}[op]
+                wa, wb = hw(a), hw(b)
                 if op == "==":
-                    # round-trip test  narrow == wide: the value fits the narrow type
-                    for t1, t2 in ((ta, tb), (tb, ta)):
-                        n1 = valname(t1)
-                        if n1 in narrow and narrow[n1] == 16 and valname(t2) in ("L", "x", "r"):
+                    if wa is not None and wb is not None:
+                        # round-trip test narrow == wide: the value fits the narrower holder
+                        if 16 in (wa, wb) and wa != wb:
                             lo, hi = max(lo, -32768.0), min(hi, 32767.0)
-                            return
-                        if "(double)x" in t1 or valname(t1) in ("x", "r"):
-                            if valname(t2) == "L":
-                                return        # value is integral: no range information
+                        elif 32 in (wa, wb) and wa != wb:
+                            lo, hi = max(lo, -2147483648.0), min(hi, 2147483647.0)
+                        return
                     unknown.append(render(c))
                     return
                 if op == "!=":
                     return
                 # comparison with a constant
                 if vb is not None and va is None:
-                    t, v = ta, vb
+                    t, v = a, vb
                 elif va is not None and vb is None:
-                    t, v = tb, va
+                    t, v = b, va
                     op = {"<=": ">=", "<": ">", ">=": "<=", ">": "<"}[op]
                 else:
                     unknown.append(render(c))
                     return
-                name = valname(t)
-                m = re.fullmatch(r"(?:std::)?(?:labs|abs|fabs|llabs)\((.*)\)", name)
-                if m and valname(m.group(1)) in ("L", "x", "r"):
+                t0 = strip(t)
+                if t0["k"] == "CallExpr" and (t0.get("callee") or "").replace("std::", "") in ("labs", "abs", "fabs", "llabs") and hw(call_args(t0)[0]) is not None:
                     if op in ("<=", "<"):
                         lo, hi = max(lo, -v), min(hi, v)
                     return
-                if name in ("L", "x", "r"):
+                if hw(t) is not None:
                     if op in ("<=", "<"):
                         hi = min(hi, v if op == "<=" else v - 1)
                     else:
@@ -784,7 +792,9 @@ def packing_rule(rep, F):
                 return
             unknown.append(render(c))
         for cid, pol in f.cfg.facts_at(call):
-            add(f.nodes[cid], pol)
+            if isinstance(pol, tuple):
+                continue
+            add(expand_locals(f, f.nodes[cid]), pol)          # one-line range predicates are looked through
         return lo, hi, unknown
     recs = {}
     for c in f.walk():
@@ -803,6 +813,56 @@ def packing_rule(rep, F):
                      "the %s integer record '%s' is written for values in [%s, %s]: a constant outside [%d, %d] wraps and is read back as a different number" % (what, letter, lo, hi, wlo, whi))
     g = [x for x in recs["n"] if any(s.get("v", "").startswith("n%g") for s in walk(x) if s["k"] == "StringLiteral")]
     w3.check(len(g) == 1, "record|n", short_loc(f.loc), "every other constant is written with %g")
+
+
+def value_holders(f):
+    """-> hw(expr): width in bits (0 = floating) of the value holder an expression denotes, None if it is not one.
+    Value holders of a formatter's nput(File&, double v): the parameter, and every local initialised / assigned from
+    a cast chain of a holder (x = r, L = (long)x, sh = (short)L)."""
+    # variables that hold the value being written (possibly narrowed): the parameter, and every local that is
+    # initialised / assigned from a cast chain of such a variable:  x = r,  L = (long)x,  sh = (short)L
+    WIDTH = {"short": 16, "signed short": 16, "int": 32, "long": 64, "long long": 64, "double": 0, "float": 0}
+    holder = {}          # declId -> width (0 = floating)
+    for p_ in f.params:
+        if (p_.get("ct") or p_.get("t") or "").replace("const ", "") == "double":
+            holder[p_["declId"]] = 0
+
+    def core(n):
+        """the variable a cast chain / embedded assignment ends in"""
+        n = strip(n)
+        for _ in range(8):
+            if n is None:
+                return None
+            if n["k"] in ("CStyleCastExpr", "CXXStaticCastExpr", "CXXFunctionalCastExpr", "ImplicitCastExpr", "ParenExpr") and kids(n):
+                n = strip(kids(n)[0])
+                continue
+            if n["k"] == "BinaryOperator" and n.get("op") == "=":
+                n = strip(kids(n)[0])
+                continue
+            if n["k"] == "BinaryOperator" and n.get("op") == ",":
+                n = strip(kids(n)[1])
+                continue
+            break
+        return n if n is not None and n["k"] == "DeclRefExpr" else None
+    for _ in range(4):
+        for n in f.walk():
+            tgt = src = None
+            if n["k"] == "VarDecl" and kids(n):
+                tgt, src, ct = n.get("declId"), kids(n)[0], (n.get("ct") or "")
+            elif n["k"] == "BinaryOperator" and n.get("op") == "=" and strip(kids(n)[0])["k"] == "DeclRefExpr":
+                tgt, src, ct = strip(kids(n)[0]).get("declId"), kids(n)[1], (strip(kids(n)[0]).get("ct") or "")
+            if tgt is None or tgt in holder:
+                continue
+            c_ = core(src)
+            if c_ is not None and c_.get("declId") in holder and ct.replace("const ", "") in WIDTH:
+                holder[tgt] = WIDTH[ct.replace("const ", "")]
+
+    def hw(n):
+        """width of the value holder the expression denotes (None if it is not one)"""
+        c_ = core(n)
+        return holder.get(c_.get("declId")) if c_ is not None else None
+
+    return hw
 
 
 # ---- T6: the position field of defined-variable records --------------------------------------------
@@ -1056,21 +1116,71 @@ def item_index_rule(rep, F, FW):
                 out.append((c, lits, a[2:]))
         return out
 
-    def loop_of(f, node):
-        return f.enclosing(node, ("ForStmt",))
+    LOOPS = ("ForStmt", "WhileStmt")
 
-    def bound(loop):
-        c = loop.get("c", [None] * 5)[2]
-        c = strip(c) if c is not None else None
-        if c is None or c["k"] != "BinaryOperator" or c.get("op") != "<":
+    def loop_of(f, node):
+        return f.enclosing(node, LOOPS)
+
+    def xaff(f, e):
+        return aff(expand_locals(f, e, 0, True))
+
+    def loop_shape(f, loop):
+        """(variable name, bound, start, stepped once) of `for (init; v < bound; ++v)` or `while (v < bound) { ...; ++v; }`;
+        start is an affine form, or None when the variable simply continues from the preceding loop over it"""
+        if loop is None:
             return None
-        return (render(kids(c)[0]).strip(), aff(kids(c)[1]))
+        cond = loop.get("c", [None] * 5)[2] if loop["k"] == "ForStmt" else kids(loop)[0]
+        cond = strip(cond) if cond is not None else None
+        if cond is None or cond["k"] != "BinaryOperator" or cond.get("op") != "<":
+            return None
+        v = strip(kids(cond)[0])
+        if v["k"] != "DeclRefExpr":
+            return None
+        vid, vname = v.get("declId"), v.get("name")
+        bound = xaff(f, kids(cond)[1])
+        body = [x for x in loop.get("c", []) if x is not None][-1]
+        incs = [n for n in walk(loop) if (n["k"] == "UnaryOperator" and n.get("op") in ("++",) and strip(kids(n)[0]).get("declId") == vid) or
+                (n["k"] == "CompoundAssignOperator" and n.get("op") == "+=" and strip(kids(n)[0]).get("declId") == vid and cv(kids(n)[1]) == 1)]
+        other_writes = [n for n in walk(body) if n["k"] == "BinaryOperator" and n.get("op") == "=" and strip(kids(n)[0]).get("declId") == vid]
+        stepped = len(incs) == 1 and not other_writes and not any(a["k"] in ("IfStmt", "SwitchStmt") and a is not loop
+                                                                   for a in f.ancestors(incs[0]) if a["i"] != loop["i"] and any(x["i"] == a["i"] for x in walk(loop)))
+        start = "?"
+        ini = loop.get("c", [None])[0] if loop["k"] == "ForStmt" else None
+
+        def init_of(st):
+            if st is None:
+                return "?"
+            for n in walk(st):
+                if n["k"] == "VarDecl" and n.get("declId") == vid and kids(n):
+                    return xaff(f, kids(n)[0])
+                if n["k"] == "BinaryOperator" and n.get("op") == "=" and strip(kids(n)[0]).get("declId") == vid:
+                    return xaff(f, kids(n)[1])
+            return "?"
+        if ini is not None:
+            start = init_of(ini)
+        if start == "?":
+            # look at the statements before the loop in the enclosing block, nearest first
+            par = f.parent.get(loop["i"])
+            sibs = [x for x in (kids(par) if par is not None else []) if x is not None]
+            idx = next((k_ for k_, x in enumerate(sibs) if x["i"] == loop["i"]), 0)
+            for prev in reversed(sibs[:idx]):
+                if prev["k"] in LOOPS:
+                    ps = loop_shape(f, prev)
+                    if ps is not None and ps[0] == vname:
+                        start = ps[1]            # continues where that loop stopped
+                        break
+                r_ = init_of(prev)
+                if r_ != "?":
+                    start = r_
+                    break
+        return vname, bound, start, stepped
 
     # --- C / L / O ---------------------------------------------------------------------------
     f = fn("WriteConObjExpressions")
-    want = {"C": ({"i": 1.0}, {"num_algebraic_cons": 1.0}, "FeedConExpression", {"i": 1.0, "1": 1.0}),
-            "L": ({"i": 1.0, "num_algebraic_cons": -1.0}, {"num_algebraic_cons": 1.0, "num_logical_cons": 1.0}, "FeedConExpression", {"i": 1.0, "1": 1.0}),
-            "O": ({"i": 1.0}, {"num_objs": 1.0}, "FeedObjExpression", {"i": -1.0, "1": -1.0})}
+    NALG, NLOG, NOBJ = "num_algebraic_cons", "num_logical_cons", "num_objs"
+    want = {"C": ({"V": 1.0}, {NALG: 1.0}, {}, "FeedConExpression", {"V": 1.0, "1": 1.0}),
+            "L": ({"V": 1.0, NALG: -1.0}, {NALG: 1.0, NLOG: 1.0}, {NALG: 1.0}, "FeedConExpression", {"V": 1.0, "1": 1.0}),
+            "O": ({"V": 1.0}, {NOBJ: 1.0}, {}, "FeedObjExpression", {"V": -1.0, "1": -1.0})}
     seen = {}
     for c, lits, args in aprs(f):
         if not args:
@@ -1079,30 +1189,34 @@ def item_index_rule(rep, F, FW):
         letter = chr(ch) if ch else None
         if letter in want:
             seen[letter] = (c, args)
-    for letter, (ix, ub, feeder, dv) in want.items():
+    for letter, (ix, ub, st0, feeder, dv) in want.items():
         if letter not in seen:
             t8.fail("record|%s" % letter, short_loc(f.loc), "no %s record is written" % letter)
             continue
         c, args = seen[letter]
         lp = loop_of(f, c)
-        got_ix = aff(args[1])
+        sh = loop_shape(f, lp)
+        V = sh[0] if sh else "?"
+
+        def vform(e):
+            a_ = xaff(f, e)
+            return {("V" if k_ == V else k_): v_ for k_, v_ in a_.items()}
+        got_ix = vform(args[1])
         t8.check(got_ix == ix, "record|%s|index" % letter, short_loc(c.get("l")),
                  "%s records carry index %s" % (letter, ix), "%s records carry index `%s` (= %s), expected %s" % (letter, render(args[1]), got_ix, ix))
-        b = bound(lp) if lp is not None else None
-        t8.check(b is not None and b[0] == "i" and b[1] == ub, "record|%s|range" % letter, short_loc(c.get("l")),
-                 "the %s loop runs while i < %s" % (letter, ub), "the %s loop bound is %s" % (letter, b))
+        t8.check(sh is not None and sh[1] == ub and sh[2] == st0 and sh[3], "record|%s|range" % letter, short_loc(c.get("l")),
+                 "the %s loop runs its index from %s while it is < %s, one step per iteration" % (letter, st0 or 0, ub),
+                 "the %s loop is (variable, bound, start, stepped once) = %s" % (letter, sh))
         fc = [x for x in walk(lp) if x["k"] == "CXXMemberCallExpr" and (x.get("callee") or "").split("::")[-1] == feeder] if lp is not None else []
-        t8.check(len(fc) == 1 and aff(call_args(fc[0])[0]) == {"i": 1.0}, "record|%s|feeder-item" % letter, short_loc(c.get("l")),
-                 "%s is asked for item i" % feeder, "%s is asked for item `%s`" % (feeder, render(call_args(fc[0])[0]) if fc else "?"))
+        t8.check(len(fc) == 1 and vform(call_args(fc[0])[0]) == {"V": 1.0}, "record|%s|feeder-item" % letter, short_loc(c.get("l")),
+                 "%s is asked for the item of the loop index" % feeder, "%s is asked for item `%s`" % (feeder, render(call_args(fc[0])[0]) if fc else "?"))
         wd = [x for x in walk(lp) if x["k"] == "CXXMemberCallExpr" and (x.get("callee") or "").split("::")[-1] == "WriteDefinedVariables"] if lp is not None else []
-        t8.check(len(wd) == 1 and aff(call_args(wd[0])[0]) == dv, "record|%s|defined-vars" % letter, short_loc(c.get("l")),
+        t8.check(len(wd) == 1 and vform(call_args(wd[0])[0]) == dv, "record|%s|defined-vars" % letter, short_loc(c.get("l")),
                  "defined variables of the item are written first, selector %s" % dv,
                  "WriteDefinedVariables selector is `%s`" % (render(call_args(wd[0])[0]) if wd else "?"))
-    # the L loop continues the C loop (no re-initialisation), the O loop restarts at 0
-    loops = [n for n in f.walk() if n["k"] == "ForStmt"]
-    inits = [render(l.get("c", [None])[0]).replace(" ", "") if l.get("c", [None])[0] is not None else "" for l in loops]
-    t8.check(len(loops) == 3 and inits[1] == "" and inits[2] in ("i=0", "inti=0"), "loops|continuation", short_loc(f.loc),
-             "the logical-constraint loop continues where the algebraic one stopped, the objective loop restarts at 0", "loop initialisers %s" % inits)
+    loops = [n for n in f.walk() if n["k"] in LOOPS]
+    t8.check(len(loops) == 3, "loops|continuation", short_loc(f.loc),
+             "three loops: algebraic constraints, logical constraints continuing the index, objectives from 0", "%d loops" % len(loops))
     # --- J / G --------------------------------------------------------------------------------
     for name, letter, ub, feeder in (("WriteLinearConExpr", "J", {"num_algebraic_cons": 1.0}, "FeedLinearConExpr"),
                                      ("WriteObjGradients", "G", {"num_objs": 1.0}, "FeedObjGradient")):
@@ -1110,13 +1224,15 @@ def item_index_rule(rep, F, FW):
         lam = [x for x in FW.funcs if x.qn == NLW + "::" + name + "::(lambda)::operator()" and not x.is_dependent()]
         recs = [(c, lits, args) for h in [g] + lam[:1] for c, lits, args in aprs(h)
                 if lits and all(s_.startswith(letter + "%d %d") for s_ in lits)]
-        lp = [n for n in g.walk() if n["k"] == "ForStmt"]
-        okr = len(recs) == 1 and len(recs[0][2]) >= 2 and aff(recs[0][2][0]) == {"i": 1.0} and render(recs[0][2][1]).strip() == "nnz"
+        lp = [n for n in g.walk() if n["k"] in LOOPS]
+        shp0 = loop_shape(g, lp[0]) if len(lp) == 1 else None
+        okr = len(recs) == 1 and len(recs[0][2]) >= 2 and shp0 is not None and aff(recs[0][2][0]) == {shp0[0]: 1.0} and render(recs[0][2][1]).strip() == "nnz"
         t8.check(okr, "record|%s|index" % letter, short_loc(g.loc), "%s records carry the item index and the number of entries" % letter,
                  "%s record arguments are %s" % (letter, [render(x) for x in recs[0][2]] if recs else "missing"))
-        b = bound(lp[0]) if len(lp) == 1 else None
+        shp = loop_shape(g, lp[0]) if len(lp) == 1 else None
+        b = (shp[0], shp[1]) if shp else None
         fc = [x for x in g.walk() if x["k"] == "CXXMemberCallExpr" and (x.get("callee") or "").split("::")[-1] == feeder]
-        t8.check(b is not None and b[0] == "i" and b[1] == ub and len(fc) == 1 and aff(call_args(fc[0])[0]) == {"i": 1.0},
+        t8.check(shp is not None and shp[1] == ub and shp[2] == {} and shp[3] and len(fc) == 1 and xaff(g, call_args(fc[0])[0]) == {shp[0]: 1.0},
                  "record|%s|range-and-item" % letter, short_loc(g.loc), "one %s record per item i < %s, %s(i)" % (letter, ub, feeder),
                  "loop bound %s, feeder argument `%s`" % (b, render(call_args(fc[0])[0]) if fc else "?"))
     # --- k / K ----------------------------------------------------------------------------------
